@@ -552,6 +552,8 @@ class InterpCore:
                 return self.call(self.bind_descr(c, fn, fn.cls), args, kwargs, run, node)
         if isinstance(fn, Sym):
             return self.sym_call(fn, args, kwargs, run, node)
+        if isinstance(fn, OpaqueV):
+            return OpaqueV(f"{fn.what}(...)")
         self.limit(f"call of {fn!r}", node)
 
     # ------------------------------------------------------------------ classes
@@ -609,7 +611,8 @@ class InterpCore:
                 self.call(f, [cls], kwargs, run, node)
                 break
         else:
-            if kwargs and not cls.flags.get("namedtuple"):
+            if kwargs and not cls.flags.get("namedtuple") and not any(
+                    isinstance(c, LibClass) and c.name == "pydantic.BaseModel" for c in cls.mro):
                 self.throw("TypeError", f"{name}.__init_subclass__() takes no keyword arguments", node)
         v = cls
         for d in reversed(node.decorator_list):
@@ -988,7 +991,7 @@ class InterpCore:
                     out.append(self.ev(x, env, run))
             return ListV(out, site=self.site(e))
         if k is ast.Set:
-            return self.call_lib("frozenset", [tuple(self.ev(x, env, run) for x in e.elts)], {}, run, e)
+            return self.call_libclass(LibClass.get("frozenset"), [tuple(self.ev(x, env, run) for x in e.elts)], {}, run, e)
         if k is ast.Dict:
             d = {}
             for kk, vv in zip(e.keys, e.values):
@@ -1098,7 +1101,7 @@ class InterpCore:
         if isinstance(e, ast.GeneratorExp):
             return tuple(out)  # generators are consumed once by tuple()/max()/...: a tuple is a faithful stand-in
         if isinstance(e, ast.SetComp):
-            return self.call_lib("frozenset", [tuple(out)], {}, run, e)
+            return frozenset(out)
         return ListV(out, site=self.site(e))
 
     def ev_dictcomp(self, e, env, run):
